@@ -332,3 +332,77 @@ def c11(run, args):
                        "recursive removals; each on-disk state is opened by a fresh store and TLC checks: no error listing/visiting/reading, state = before or after the operation, new delivery accepted")
     run.assumptions += ["process death with an intact operating system: everything written before the instant of death is on disk; power loss (unsynced page cache) is not modelled",
                         "partial recursive removal is enumerated in sorted and reverse-sorted directory order", "retention scan is not a target operation (the property names deliver, mark, remove, purge)"]
+
+
+# --------------------------------------------------------------------------- C09
+LIN_CFG = """SPECIFICATION TraceSpec
+CONSTANT Mailbox = {%(mbs)s}
+INVARIANTS IdsUnique ArrivalInv
+POSTCONDITION TraceAccepted
+CHECK_DEADLOCK FALSE
+"""
+
+
+def c09(run, args):
+    quick = run.tier == "quick"
+    rng = random.Random(run.seed)
+    vhr = run.build_harness(race=True)
+    if args.replay:
+        d = json.load(open(args.replay))
+        behaviours = [dict(d["behaviour"], repeat=50)]
+    else:
+        run.model_check("MCMailstore", MC_CFG % dict(caps="0, 2", limits="0, 3", maxadds=3), label="MCMailstore(caps x limits)")
+        # programs: TLC-enumerated operation sequences dealt out to 2 or 3 concurrent clients; id references point at the
+        # messages of the sequential set-up (two per mailbox) or at an id that was never issued
+        seqs = run.generate("GenMailstore", gen_cfg(2, [1], [1], 4 if quick else 5, scan=False, seen=True))
+        seqs = [s_ for s_ in seqs if sum(1 for o in s_ if o["op"] in ("remove", "purge", "seen")) >= 1 and any(o["op"] == "add" for o in s_)]
+        rng.shuffle(seqs)
+        seqs = seqs[:400 if quick else 4000]
+        count_distinct(run, seqs)
+        sets = [bucket_pair(3, rng) + ["other"], ["alpha", "beta", "gamma"], bucket_pair(6, rng) + ["other"]]
+        mem_cfgs = [(0, 0), (2, 0), (0, 2), (2, 2)]
+        file_cfgs = [(0, 0), (2, 0)]
+        pre = [{"op": "add", "mb": m, "meta": 1, "size": 600} for m in (0, 1) for _ in range(2)]
+        reads = ["list", "latest", "get", "visit"]
+        behaviours = []
+        for i, ops in enumerate(seqs):
+            nthreads = 2 + (i % 2)
+            threads = [[] for _ in range(nthreads)]
+            for j, o in enumerate(ops):
+                o = dict(o, size=600, id=((o["id"] - 1) % 3) + 1 if o["id"] else 0)
+                threads[j % nthreads].append(o)
+                if rng.random() < 0.5:
+                    threads[(j + 1) % nthreads].append({"op": rng.choice(reads), "mb": rng.randrange(2), "id": rng.randrange(1, 4)})
+            for st in ("mem", "file"):
+                cfgs = mem_cfgs if st == "mem" else file_cfgs
+                cap, maxkb = cfgs[(i + run.seed) % len(cfgs)]
+                behaviours.append({"id": "lin-%d-%s-c%dk%d" % (i, st, cap, maxkb), "store": st, "cap": cap, "maxkb": maxkb, "names": sets[i % len(sets)],
+                                   "pre": pre, "threads": threads, "repeat": 6 if quick else 12})
+        run.cov["samples"] = [behaviours[0]["threads"], behaviours[-1]["threads"]]
+    names = sorted({n for b in behaviours for n in b["names"]})
+    crashes = []
+    tf = run.harness_parallel(vhr, "conc", behaviours, "c09", procs=12, crashes=crashes)
+    byid = {b["id"]: b for b in behaviours}
+    for c in crashes:
+        b = c["behaviour"]
+        kind = "data race" if any("DATA RACE" in x for x in c["signature"]) else "crash"
+        run.violation("C09 concurrent use: %s of the process (%s) while %d clients used the %s store (cap=%s maxkb=%s) concurrently" % (
+            kind, "; ".join(c["signature"][:1]) or "rc=%s" % c["rc"], len(b.get("threads", [])), b.get("store"), b.get("cap"), b.get("maxkb")),
+            {"behaviour": b, "crash": {k: c[k] for k in ("rc", "signature", "stderr_tail")}, "replay_kind": "conc"})
+    res = run.validate("LinTrace", LIN_CFG % dict(mbs=tla_set(names)), tf, max_rej=2)
+    run.cov["evaluations"] += res["traces"]
+    for r in res["rejections"]:
+        b = byid.get(str(r["trace"]).split("#")[0], {})
+        ev = r["rejected_event"]
+        if ev.get("a") == "stuck":
+            what = "C09 concurrent use: operations did not complete (deadlock?) on the %s store" % b.get("store")
+        else:
+            what = ("C09 concurrent use: store=%s cap=%s maxkb=%s: the history is not linearizable against the Mailstore contract: no sequential order consistent with real time explains "
+                    "event #%d (%s %s on %r -> %s)") % (b.get("store"), b.get("cap"), b.get("maxkb"), r["rejected_event_index"], ev.get("a"), ev.get("k", ""), ev.get("mb"), ev.get("r"))
+        run.violation(what, {"behaviour": b, "rejection": r, "replay_kind": "conc"})
+    run.cov["rule"] = ("TLC-enumerated operation sequences (add/seen/remove/purge over two mailboxes that may share a lock bucket / hash directory, id references to existing and "
+                       "never-issued messages) are dealt out to 2-3 goroutines, interleaved with reads (list, latest, get, visit), and run several times each against the real memory store "
+                       "(cap x maxkb) and file store (cap) under the Go race detector; every call is stamped before and after from one atomic counter; TLC searches for a linearization of each "
+                       "history against the Mailstore contract that also ends in the observed final store; a crash, a race report or calls that do not return are attributed to the history")
+    run.assumptions += ["interleavings are those the Go scheduler produces over repeated runs (not enumerated)", "a retention scan is not one atomic operation and is checked in C12",
+                        "VisitMailboxes is treated as one read per mailbox, each linearized between the start of the visit and its callback"]
